@@ -48,11 +48,11 @@ def build_tools(flavour):
             if flavour == "att":
                 srcs.append(os.path.join(common.REPO, "tools", "attgetopt.c"))
             # our tools/config.h must win over the one common._gen_config puts under <build>/inc (always the glibc flavour)
-            cmd = ["gcc", "-I" + inc] + common.cflags("asan") + srcs + [os.path.join(d, "libwbxml.a"), "-lexpat", "-o", exe + ".tmp"]
+            cmd = ["gcc", "-I" + inc] + common.cflags("asan") + srcs + [os.path.join(d, "libwbxml.a"), "-lexpat", "-o", exe + (".tmp%d" % os.getpid())]
             rc, o, e = common.sh(cmd)
             if rc != 0:
                 raise common.BuildError("tool build failed: %s\n%s" % (name, e[-3000:]))
-            os.rename(exe + ".tmp", exe)
+            os.rename(exe + (".tmp%d" % os.getpid()), exe)
     return out
 
 
